@@ -9,6 +9,9 @@ import CkbVerif.Lemmas.IndexerRbPrune
 import CkbVerif.Lemmas.IndexerRbTip
 import CkbVerif.Lemmas.IndexerCells
 import CkbVerif.Lemmas.IndexerHistReplayT
+import CkbVerif.Lemmas.IndexerCellOrder
+import CkbVerif.Lemmas.IndexerWF
+import CkbVerif.Lemmas.IndexerFollow
 
 /-!
 # C18 — the indexer's answers equal filtering the chain's live cells and transactions
@@ -28,8 +31,9 @@ Proved here (all unbounded: any store, any block, any script):
 * `prefix_search_overmatch_witness` — in prefix mode the code returns a cell whose script does NOT
   start with the searched script (query args `01 00` vs. cell args `01`): the negation of the naive
   prefix specification; replayed on the real code (corpus/C18/finding-prefix-search-overmatch).
-* `capacity_script_len_range_witness`, `tip_garbage_after_rollback_to_empty_witness` — Lean witnesses
-  of the other two known deviations (known_findings.txt), both replayed on the real code.
+* `capacity_script_len_range_witness_prefix` (the deviation of `get_cells_capacity` BEFORE the repair
+  963ba99, stated about `getCellsCapacityBuggy`; the repaired code agrees with `get_cells`),
+  `tip_garbage_after_rollback_to_empty_witness` — the other known deviation, replayed on the real code.
 * `replay_step_created` / `replay_step_spent` / `replay_step_other` — what one `append` does to the
   live-cell set (OutPoint rows), SAME-BLOCK SPENDS INCLUDED (`WFAppend2`: an input may refer to an
   output of an earlier transaction of the block): outputs of the block that are not spent later in
@@ -73,10 +77,45 @@ Proved here (all unbounded: any store, any block, any script):
 * `answers_eq_filter_instance`, `rollback_append_instance` — sanity instances on one concrete
   two-block chain WITH a same-block spend (kernel evaluation).
 
-NOT proved in general (tested by the correspondence harness against an independent replay oracle):
-that `ChainOK2` / `WFRollback2` hold for every chain the
-node delivers (they are the harness's generator invariants); prefix-mode answers
-(see `prefix_search_overmatch_witness`), ordering / limit / cursor of the RPC layer.
+
+Round 3 (all unbounded; `S` = the store after ANY well-formed chain of in-range blocks):
+
+* `get_cells_type_eq_filter_partial` — `get_cells` by TYPE script, exact mode, any cell filter =
+  filter over `replayLive` (the clone of the lock-script theorem).
+* `get_cells_order_partial` — exact mode, lock or type search: the ascending unlimited answer is
+  STRICTLY sorted by (block_number, tx_index, output_index); `get_cells` with `Desc` returns its reverse.
+* `get_cells_order_by_key` — prefix or exact mode: ascending answers are strictly sorted by their
+  key bytes (= `last_cursor` values), descending is the reverse.
+* `get_cells_pages_concat` / `get_transactions_pages_concat` — LIMIT / CURSOR: for every limit ≥ 1,
+  asc or desc, prefix or exact, lock or type search, any filter: following `last_cursor` from the
+  first page until a page comes back empty terminates (within `|S| + 1` calls) and the pages
+  concatenate to EXACTLY the unlimited answer — no row lost, none duplicated.
+* `get_transactions_eq_filter_partial` / `get_transactions_type_eq_filter_partial` — ungrouped,
+  exact mode: the unlimited answer is exactly the rows of the replayed history (`replayTxLock` /
+  `replayTxType`) under the searched script that pass the filter script (sibling row in the other
+  replayed history) and the block range; `get_transactions_order_partial` (+ `_type_`): strictly
+  ascending in (block_number, tx_index, io_index, io_type) with inputs before outputs; `Desc` reverses.
+* `get_cells_capacity_eq_sum`, `get_cells_capacity_eq_get_cells` — `get_cells_capacity` is the sum of
+  the capacities of the unlimited `get_cells` answer, any mode, EVERY filter (`script_len_range`
+  included since the repair 963ba99; `capacity_script_len_range_witness_prefix` is the old deviation).
+* `wf_checks_sound`, `chain_checks_sound` — the decidable checks the DRIVER evaluates on every
+  block of every chain the harness produces (synthetic and real-node: the `wf` op) imply the
+  hypotheses of all the theorems above (`ChainOK2/3/3T`, `WFRollback2`, `HdrDisjoint`, retention);
+  `WFRollback2.freshConsumed` now allows the ConsumedOutPoint RESIDUE that `rollback` leaves behind,
+  so the rollback theorems apply to a store that has been through reorgs at the same height.
+
+* `answers_after_reorgs_partial` — appends AND rollbacks: for every store reached by appending
+  checked blocks and rolling back the block appended last (`Followed`: any interleaving of
+  `append b` and `append b; rollback`, residue and automatic prune included), EVERY answer row
+  (OutPoint, Cell*Script, Tx*Script) equals the replay spec of the MAIN chain (`replayLive`,
+  `replayTxLock`, `replayTxType`) — so all the query theorems above, which only read answer rows,
+  transfer. PARTIAL: a rollback deeper than the last appended block is not covered.
+
+NOT proved in general: that the chain the node delivers satisfies `ChainOK2` / `WFRollback2` (now
+CHECKED on every generated and every real-node block by evaluating the Lean predicates themselves in
+the driver and an independent Rust mirror in the harness); prefix-mode answer SETS (the code
+over-matches: `prefix_search_overmatch_witness`); grouped transaction lists; rollback deeper than the
+last appended block as a theorem (correspondence + rollback oracle only).
 -/
 namespace CkbVerif.C18
 open CkbVerif.Indexer CkbVerif.Gen.Indexer
@@ -550,17 +589,20 @@ theorem keep0_tip_not_restored_witness :
       ⟨1, 11, [⟨3, [⟨0, 4294967295⟩], [⟨5, ⟨1, [1]⟩, none, []⟩]⟩]⟩,
     ⟨2, 12, [⟨4, [⟨0, 4294967295⟩], [⟨5, ⟨1, [1]⟩, none, []⟩]⟩]⟩, by decide, by decide⟩
 
-/-! ## Lean witnesses of the other two known deviations of the code (known_findings.txt) -/
+/-! ## Lean witnesses of the other deviations of the code (one repaired by 963ba99, one known finding) -/
 
-/-- **capacity / script_len_range**: `get_cells_capacity` treats the END of `script_len_range` as
-inclusive while `get_cells` treats it as exclusive: with range [0,33) and a cell whose type script has
-raw length 33, `get_cells` returns nothing but `get_cells_capacity` sums the cell. -/
-theorem capacity_script_len_range_witness :
+/-- **capacity / script_len_range, BEFORE the repair 963ba99** (`getCellsCapacityBuggy` = the code
+with `script_len > r1`): the END of `script_len_range` was inclusive in `get_cells_capacity` and
+exclusive in `get_cells`: with range [0,33) and a cell whose type script has raw length 33, `get_cells`
+returns nothing but the old `get_cells_capacity` summed the cell. The repaired code
+(`getCellsCapacity`) agrees with `get_cells` — second component, and `get_cells_capacity_eq_sum`. -/
+theorem capacity_script_len_range_witness_prefix :
     ∃ (s : Store) (q : Script) (f : Filter),
       (getCells s true q true f false 100 none).map (·.1.length) = some 0 ∧
-      getCellsCapacity s true q true f = some 100 :=
+      getCellsCapacityBuggy s true q true f = some 100 ∧
+      getCellsCapacity s true q true f = some 0 :=
   ⟨appendCore [] ⟨0, 1, [⟨1, [⟨0, 4294967295⟩], [⟨100, ⟨1, []⟩, some ⟨2, []⟩, []⟩]⟩]⟩, ⟨1, []⟩,
-    { scriptLenRange := some (0, 33) }, by decide, by decide⟩
+    { scriptLenRange := some (0, 33) }, by decide, by decide, by decide⟩
 
 /-- **tip after rolling back the only indexed block**: `rollback` leaves the ConsumedOutPoint rows
 behind and `tip()` does not test the key family, so the tip is decoded from a residue row instead of
@@ -612,5 +654,335 @@ theorem rollback_append_instance :
     tip (rollback (appendCore (appendCore [] exBlock0) exBlock1)) = tip (appendCore [] exBlock0) ∧
     get (rollback (appendCore (appendCore [] exBlock0) exBlock1)) (.consumed 1 ⟨3, 0⟩) ≠ none := by
   decide +kernel
+
+/-! ## Round 3: type-script search, ORDER, LIMIT / CURSOR, get_transactions, get_cells_capacity -/
+
+/-- **(a) `get_cells` by TYPE script = filter over the replayed live set** (exact mode, ANY cell
+filter; for a type search the filter script and `script_len_range` apply to the LOCK script).
+PARTIAL in scope only: exact search mode (prefix mode over-matches: known finding). -/
+theorem get_cells_type_eq_filter_partial (keep interval : Nat) (blocks : List Block)
+    (ok : ChainOK2 keep interval [] blocks) (q : Script) (f : Filter) :
+    ∃ l, cellRows (blocks.foldl (append keep interval) []) false q true f false
+        (scan (blocks.foldl (append keep interval) []) (cellPrefix false q)) = some l ∧
+      ∀ a : CellAns, a ∈ l ↔
+        ∃ c : Cell, replayLive blocks a.op = some c ∧ c.out.type = some q ∧ cellPasses f false false c = true ∧
+          a.cell = c ∧ a.key = (Key.cellType q c.bn c.txIdx a.op.idx).bytes :=
+  getCellsType_exact_eq_replay keep interval blocks ok q f
+
+def exBlock1T : Block :=
+  ⟨1, 11, [⟨2, [⟨0, 4294967295⟩], [⟨5000, ⟨1, [1]⟩, some ⟨2, [5]⟩, []⟩]⟩,
+           ⟨3, [⟨1, 0⟩], [⟨100, ⟨1, [1]⟩, some ⟨2, [5]⟩, [7]⟩, ⟨250, ⟨1, [1, 2]⟩, some ⟨2, [5, 0]⟩, []⟩]⟩]⟩
+
+/-- not vacuous: a type-script query with a lock-script filter returns two cells, in key order -/
+example :
+    (cellRows (appendCore (appendCore [] exBlock0') exBlock1T) false ⟨2, [5]⟩ true
+        { script := some ⟨1, [1]⟩ } false
+        (scan (appendCore (appendCore [] exBlock0') exBlock1T) (cellPrefix false ⟨2, [5]⟩))).map
+      (fun l => l.map (fun a => (a.op, a.cell.out.cap))) = some [(⟨2, 0⟩, 5000), (⟨3, 0⟩, 100)] := by
+  decide
+
+/-- **(b) ORDER, exact mode** (lock or type search, any filter): the unlimited ascending answer `l`
+is STRICTLY sorted by (block_number, tx_index, output_index) and `get_cells` returns `l` for `Asc`
+and `l.reverse` for `Desc` whenever `limit ≥ |l|`. `BlockBounded`: u64 block number, at most 2^32
+transactions / inputs / outputs (what the wire format allows). PARTIAL: exact mode (the numeric
+reading of the key order needs all rows to carry the same script); any mode: `get_cells_order_by_key`. -/
+theorem get_cells_order_partial (keep interval : Nat) (blocks : List Block)
+    (ok : ChainOK2 keep interval [] blocks) (hb : ∀ b ∈ blocks, BlockBounded b)
+    (ls : Bool) (q : Script) (f : Filter) :
+    ∃ l, cellRows (blocks.foldl (append keep interval) []) ls q true f false
+        (scan (blocks.foldl (append keep interval) []) (cellPrefix ls q)) = some l ∧
+      l.Pairwise (fun a b => lex3Lt (a.cell.bn, a.cell.txIdx, a.op.idx) (b.cell.bn, b.cell.txIdx, b.op.idx)) ∧
+      ∀ limit, l.length ≤ limit →
+        (getCells (blocks.foldl (append keep interval) []) ls q true f false limit none).map (·.1) = some l ∧
+        (getCells (blocks.foldl (append keep interval) []) ls q true f true limit none).map (·.1) = some l.reverse :=
+  ⟨_, cellRows_chain keep interval blocks ok ls q true f,
+    cellAnswers_sorted keep interval blocks ok hb ls q f,
+    fun limit hl =>
+      ⟨getCells_unlimited _ ls q true f (cellsResolvable_chain keep interval blocks ok ls q true) false limit hl,
+       getCells_unlimited _ ls q true f (cellsResolvable_chain keep interval blocks ok ls q true) true limit hl⟩⟩
+
+/-- **(b') ORDER, any mode**: ascending answers are strictly sorted by their keys (the byte strings
+returned as `last_cursor`); `Desc` is the reverse. -/
+theorem get_cells_order_by_key (keep interval : Nat) (blocks : List Block)
+    (ok : ChainOK2 keep interval [] blocks) (hb : ∀ b ∈ blocks, BlockBounded b)
+    (ls : Bool) (q : Script) (exact : Bool) (f : Filter) :
+    ∃ l, cellRows (blocks.foldl (append keep interval) []) ls q exact f false
+        (scan (blocks.foldl (append keep interval) []) (cellPrefix ls q)) = some l ∧
+      l.Pairwise (fun a b => bytesLt a.key b.key = true) ∧
+      ∀ limit, l.length ≤ limit →
+        (getCells (blocks.foldl (append keep interval) []) ls q exact f false limit none).map (·.1) = some l ∧
+        (getCells (blocks.foldl (append keep interval) []) ls q exact f true limit none).map (·.1) = some l.reverse :=
+  ⟨_, cellRows_chain keep interval blocks ok ls q exact f,
+    cellAnswers_sorted_key keep interval blocks hb ls q exact f,
+    fun limit hl =>
+      ⟨getCells_unlimited _ ls q exact f (cellsResolvable_chain keep interval blocks ok ls q exact) false limit hl,
+       getCells_unlimited _ ls q exact f (cellsResolvable_chain keep interval blocks ok ls q exact) true limit hl⟩⟩
+
+theorem blockBounded_ex : ∀ b ∈ [exBlock0', exBlock1T], BlockBounded b := by
+  intro b hb
+  simp only [List.mem_cons, List.not_mem_nil, or_false] at hb
+  rcases hb with rfl | rfl <;> exact blockBounded_of_B _ (by decide)
+
+theorem chainOK2_ex : ChainOK2 1 1 [] [exBlock0', exBlock1T] :=
+  ⟨wfAppend2_of_B _ _ (by decide), wfAppend2_of_B _ _ (by decide), trivial⟩
+
+/-- not vacuous: the hypotheses hold for a two-block chain, and `Desc` really reverses a 2-cell answer -/
+example :
+    (∀ b ∈ [exBlock0', exBlock1T], BlockBounded b) ∧ ChainOK2 1 1 [] [exBlock0', exBlock1T] ∧
+    (getCells ([exBlock0', exBlock1T].foldl (append 1 1) []) false ⟨2, [5]⟩ true {} true 10 none).map
+      (fun r => r.1.map (·.op)) = some [⟨3, 0⟩, ⟨2, 0⟩] :=
+  ⟨blockBounded_ex, chainOK2_ex, by decide⟩
+
+/-- **(c) LIMIT / CURSOR for `get_cells`**: for every limit ≥ 1, asc or desc, prefix or exact mode,
+lock or type search, any filter — calling `get_cells` with `after_cursor = None`, then with the
+returned `last_cursor`, and so on until a page comes back empty, terminates within `|S| + 1` calls
+(`fuel`), never hits `expect("stored OutPoint")`, and the pages concatenate to EXACTLY the unlimited
+answer in the requested direction: no row lost, none duplicated. -/
+theorem get_cells_pages_concat (keep interval : Nat) (blocks : List Block)
+    (ok : ChainOK2 keep interval [] blocks) (hb : ∀ b ∈ blocks, BlockBounded b)
+    (ls : Bool) (q : Script) (exact : Bool) (f : Filter) (desc : Bool) (limit : Nat) (hl : 1 ≤ limit)
+    (fuel : Nat) (hf : (blocks.foldl (append keep interval) []).length < fuel) :
+    ∃ l pages, cellRows (blocks.foldl (append keep interval) []) ls q exact f false
+        (scan (blocks.foldl (append keep interval) []) (cellPrefix ls q)) = some l ∧
+      getCellsPages (blocks.foldl (append keep interval) []) ls q exact f desc limit fuel none = some pages ∧
+      pages.flatten = (if desc then l.reverse else l) ∧ pages.getLast? = some [] := by
+  obtain ⟨fam, hfam, hfm⟩ := cellPrefix_fam ls q
+  have hs := scan_strict_chain keep interval blocks hb fam (scriptRaw q) hfm
+  rw [← hfam] at hs
+  obtain ⟨pages, h1, h2, h3⟩ := getCellsPages_concat _ ls q exact f
+    (cellsResolvable_chain keep interval blocks ok ls q exact) hs desc limit hl fuel hf
+  exact ⟨_, pages, cellRows_chain keep interval blocks ok ls q exact f, h1, h2, h3⟩
+
+/-- not vacuous: limit 1, descending, on the two-block chain: three calls, pages [3.0] [2.0] [] -/
+example :
+    (getCellsPages ([exBlock0', exBlock1T].foldl (append 1 1) []) false ⟨2, [5]⟩ true {} true 1 20 none).map
+      (fun ps => ps.map (·.map (·.op))) = some [[⟨3, 0⟩], [⟨2, 0⟩], []] := by
+  decide
+
+/-- **(c) LIMIT / CURSOR for ungrouped `get_transactions`** (any chain of in-range blocks, prefix or
+exact mode, filter script, block range, asc / desc, limit ≥ 1): the page walk terminates with an
+empty page and concatenates to exactly the unlimited answer `L` in the requested direction, where
+`L` is what one call with `limit ≥ |L|` returns. -/
+theorem get_transactions_pages_concat (keep interval : Nat) (blocks : List Block)
+    (hb : ∀ b ∈ blocks, BlockBounded b)
+    (ls : Bool) (q : Script) (exact : Bool) (fs : Option Script) (br : Option (Nat × Nat))
+    (desc : Bool) (limit : Nat) (hl : 1 ≤ limit)
+    (fuel : Nat) (hf : (blocks.foldl (append keep interval) []).length < fuel) :
+    ∃ L : List TxRow,
+      (∀ d lim, L.length ≤ lim →
+        (getTxs (blocks.foldl (append keep interval) []) ls q exact fs br d lim none).1 = if d then L.reverse else L) ∧
+      (getTxsPages (blocks.foldl (append keep interval) []) ls q exact fs br desc limit fuel none).flatten =
+        (if desc then L.reverse else L) ∧
+      (getTxsPages (blocks.foldl (append keep interval) []) ls q exact fs br desc limit fuel none).getLast? = some [] := by
+  obtain ⟨fam, hfam, hfm⟩ := txPrefix_fam ls q
+  have hs := scan_strict_chain keep interval blocks hb fam (scriptRaw q) hfm
+  rw [← hfam] at hs
+  obtain ⟨h1, h2⟩ := getTxsPages_concat _ ls q exact fs br hs desc limit hl fuel hf
+  exact ⟨_, fun d lim hlim => getTxs_unlimited _ ls q exact fs br d lim hlim, h1, h2⟩
+
+def exChainTx : List Block :=
+  [exBlock0', ⟨1, 11, [⟨2, [⟨0, 4294967295⟩], []⟩,
+      ⟨3, [⟨1, 0⟩], [⟨100, ⟨1, [1]⟩, some ⟨2, [5]⟩, [7]⟩]⟩, ⟨4, [⟨3, 0⟩], []⟩]⟩]
+
+/-- not vacuous: the history of lock `1.1` has four rows; limit 3 gives pages of 3, 1, 0 rows -/
+example :
+    (getTxsPages (exChainTx.foldl (append 1 1) []) true ⟨1, [1]⟩ true none none false 3 20 none).map
+      (·.map (fun r => (r.tx, r.isInput))) = [[(1, false), (3, true), (3, false)], [(4, true)], []] := by
+  decide
+
+/-- **(d) `get_transactions` by LOCK script = filter over the replayed transaction history in key
+order** (ungrouped, exact mode). `L` = the unlimited ascending answer (what `get_transactions` returns
+for `Asc` and any `limit ≥ |L|`; `Desc` returns `L.reverse`). A row is in `L` iff it is a row
+`(q, bn, i, io, t) ↦ id` of `replayTxLock blocks` — the chain's history: one `output` row per output
+under its lock script, one `input` row per resolved input under the lock script of the spent cell —
+such that, when a filter script is given, the SAME cell has that TYPE script (`replayTxType`), and
+`bn` is in the block range; and `L` is STRICTLY ascending in (block_number, tx_index, io_index,
+io_type) with inputs before outputs. PARTIAL in scope only: exact mode, ungrouped. -/
+theorem get_transactions_eq_filter_partial (keep interval : Nat) (blocks : List Block)
+    (ok : ChainOK3 keep interval [] blocks) (okT : ChainOK3T keep interval [] blocks)
+    (hb : ∀ b ∈ blocks, BlockBounded b)
+    (q : Script) (fs : Option Script) (br : Option (Nat × Nat)) :
+    ∃ L : List TxRow,
+      (∀ d lim, L.length ≤ lim →
+        (getTxs (blocks.foldl (append keep interval) []) true q true fs br d lim none).1 = if d then L.reverse else L) ∧
+      (∀ r, r ∈ L ↔ ∃ bn i io t id, replayTxLock blocks q bn i io t = some id ∧
+        (∀ f, fs = some f → (replayTxType blocks f bn i io t).isSome = true) ∧ inRange br bn = true ∧
+        r = txRowOfLock q bn i io t id) ∧
+      L.Pairwise (fun a b => lex4Lt (a.bn, a.txIdx, a.io, if a.isInput then 0 else 1)
+        (b.bn, b.txIdx, b.io, if b.isInput then 0 else 1)) :=
+  ⟨_, fun d lim hlim => getTxs_unlimited _ true q true fs br d lim hlim,
+    fun r => getTxsLock_exact_eq_replay keep interval blocks ok okT q fs br r,
+    getTxsLock_exact_sorted keep interval blocks hb q fs br⟩
+
+/-- **(d) the same by TYPE script** (the filter script is then a LOCK script) -/
+theorem get_transactions_type_eq_filter_partial (keep interval : Nat) (blocks : List Block)
+    (ok : ChainOK3 keep interval [] blocks) (okT : ChainOK3T keep interval [] blocks)
+    (hb : ∀ b ∈ blocks, BlockBounded b)
+    (q : Script) (fs : Option Script) (br : Option (Nat × Nat)) :
+    ∃ L : List TxRow,
+      (∀ d lim, L.length ≤ lim →
+        (getTxs (blocks.foldl (append keep interval) []) false q true fs br d lim none).1 = if d then L.reverse else L) ∧
+      (∀ r, r ∈ L ↔ ∃ bn i io t id, replayTxType blocks q bn i io t = some id ∧
+        (∀ f, fs = some f → (replayTxLock blocks f bn i io t).isSome = true) ∧ inRange br bn = true ∧
+        r = txRowOfType q bn i io t id) ∧
+      L.Pairwise (fun a b => lex4Lt (a.bn, a.txIdx, a.io, if a.isInput then 0 else 1)
+        (b.bn, b.txIdx, b.io, if b.isInput then 0 else 1)) :=
+  ⟨_, fun d lim hlim => getTxs_unlimited _ false q true fs br d lim hlim,
+    fun r => getTxsType_exact_eq_replay keep interval blocks okT ok q fs br r,
+    getTxsType_exact_sorted keep interval blocks hb q fs br⟩
+
+/-- not vacuous: the chain satisfies all three hypotheses, and with the TYPE filter `2.5` the lock
+history of `1.1` keeps exactly the two rows of the typed cell 3.0 (created by tx 3, spent by tx 4) -/
+example :
+    ChainOK3 1 1 [] exChainTx ∧ ChainOK3T 1 1 [] exChainTx ∧ (∀ b ∈ exChainTx, BlockBounded b) ∧
+    ((getTxs (exChainTx.foldl (append 1 1) []) true ⟨1, [1]⟩ true (some ⟨2, [5]⟩) none false 10 none).1.map
+      (fun r => (r.tx, r.bn, r.txIdx, r.io, r.isInput))) = [(3, 1, 1, 0, false), (4, 1, 2, 0, true)] := by
+  have h := chainOK_of_checked 1 1 exChainTx [] (by decide)
+  refine ⟨h.2.1, h.2.2, ?_, by decide⟩
+  intro b hb
+  simp only [exChainTx, List.mem_cons, List.not_mem_nil, or_false] at hb
+  rcases hb with rfl | rfl <;> exact blockBounded_of_B _ (by decide)
+
+
+/-- not vacuous (TYPE search with a LOCK filter): the type history of `2.5` filtered by lock `1.1` -/
+example :
+    ((getTxs (exChainTx.foldl (append 1 1) []) false ⟨2, [5]⟩ true (some ⟨1, [1]⟩) (some (1, 2)) true 10 none).1.map
+      (fun r => (r.tx, r.bn, r.txIdx, r.io, r.isInput))) = [(4, 1, 2, 0, true), (3, 1, 1, 0, false)] := by
+  decide
+
+/-- not vacuous (prefix mode, by key): the prefix query `1.` meets the rows of scripts `1.1` and
+`1.1.2`; limit 2 pages through them without loss -/
+example :
+    (getCellsPages ([exBlock0', exBlock1T].foldl (append 1 1) []) true ⟨1, []⟩ false {} false 2 20 none).map
+      (fun ps => ps.map (·.map (·.op))) = some [[⟨2, 0⟩, ⟨3, 0⟩], [⟨3, 1⟩], []] := by
+  decide
+
+/-- **(e) `get_cells_capacity` = sum of the capacities of the `get_cells` answer** — lock or type
+search, prefix or exact mode, EVERY filter, `script_len_range` included (the code as repaired by
+963ba99; before the repair the two disagreed on the end of `script_len_range`:
+`capacity_script_len_range_witness_prefix`). `l` is the unlimited `get_cells` answer, which in exact
+mode is the filter over `replayLive` (`get_cells_eq_filter_partial`,
+`get_cells_type_eq_filter_partial`). -/
+theorem get_cells_capacity_eq_sum (keep interval : Nat) (blocks : List Block)
+    (ok : ChainOK2 keep interval [] blocks) (ls : Bool) (q : Script) (exact : Bool) (f : Filter) :
+    ∃ l, cellRows (blocks.foldl (append keep interval) []) ls q exact f false
+        (scan (blocks.foldl (append keep interval) []) (cellPrefix ls q)) = some l ∧
+      getCellsCapacity (blocks.foldl (append keep interval) []) ls q exact f =
+        some ((l.map fun a => a.cell.out.cap).foldl (· + ·) 0) := by
+  refine ⟨_, cellRows_chain keep interval blocks ok ls q exact f, ?_⟩
+  unfold getCellsCapacity
+  rw [cellRows_chain keep interval blocks ok ls q exact f]
+  rfl
+
+/-- so on a chain store the answer of `get_cells_capacity` is the sum over the `get_cells` page
+obtained with a limit that covers the whole answer -/
+theorem get_cells_capacity_eq_get_cells (keep interval : Nat) (blocks : List Block)
+    (ok : ChainOK2 keep interval [] blocks) (ls : Bool) (q : Script) (exact : Bool) (f : Filter) :
+    ∃ l, (∀ limit, l.length ≤ limit →
+        (getCells (blocks.foldl (append keep interval) []) ls q exact f false limit none).map (·.1) = some l) ∧
+      getCellsCapacity (blocks.foldl (append keep interval) []) ls q exact f =
+        some ((l.map fun a => a.cell.out.cap).foldl (· + ·) 0) := by
+  obtain ⟨l, h1, h2⟩ := get_cells_capacity_eq_sum keep interval blocks ok ls q exact f
+  rw [cellRows_chain keep interval blocks ok ls q exact f] at h1
+  cases h1
+  exact ⟨_, fun limit hl => getCells_unlimited _ ls q exact f
+    (cellsResolvable_chain keep interval blocks ok ls q exact) false limit hl, h2⟩
+
+example :
+    getCellsCapacity ([exBlock0', exBlock1T].foldl (append 1 1) []) false ⟨2, [5]⟩ true
+      { capRange := some (100, 5001), scriptLenRange := some (34, 35) } = some 5100 := by
+  decide
+
+/-! ## appends AND rollbacks -/
+
+/-- **the answers follow the main chain through reorganisations.** `Followed keep interval S bl`:
+`S` is reached from the empty store by any interleaving of (i) `append b` and (ii) `append b` followed
+by `rollback` (a block of a branch that is abandoned again), every block passing the driver's
+per-append checks on the ACTUAL store (ConsumedOutPoint residue of earlier rollbacks and the effects of
+the automatic prune included); `bl` is the main chain (the blocks of kind (i)). Then every answer row
+of `S` is the replay spec of `bl`: the OutPoint rows are `replayLive bl`, the Tx*Script rows are
+`replayTxLock bl` / `replayTxType bl`, and the Cell*Script rows index exactly the replayed live cells.
+PARTIAL: only rollbacks of the block appended LAST (reorganisations of depth 1, arbitrarily many of
+them); a rollback two or more blocks deep is covered by the correspondence + rollback oracle only. -/
+theorem answers_after_reorgs_partial (keep interval : Nat) (S : Store) (bl : List Block)
+    (h : Followed keep interval S bl) :
+    (∀ op, get S (.outPoint op) = (replayLive bl op).map Val.cell) ∧
+    (∀ sc bn i io t, get S (.txLock sc bn i io t) = (replayTxLock bl sc bn i io t).map Val.tx) ∧
+    (∀ sc bn i io t, get S (.txType sc bn i io t) = (replayTxType bl sc bn i io t).map Val.tx) ∧
+    (∀ sc bn txi io t, get S (.cellLock sc bn txi io) = some (.tx t) ↔
+      ∃ c : Cell, replayLive bl ⟨t, io⟩ = some c ∧ c.out.lock = sc ∧ c.bn = bn ∧ c.txIdx = txi) ∧
+    (∀ sc bn txi io t, get S (.cellType sc bn txi io) = some (.tx t) ↔
+      ∃ c : Cell, replayLive bl ⟨t, io⟩ = some c ∧ c.out.type = some sc ∧ c.bn = bn ∧ c.txIdx = txi) := by
+  obtain ⟨heq, _, c2, c3, c3t⟩ := followed_spec keep interval S bl h
+  have hrep := outPoint_eq_replay keep interval bl c2
+  have hcell : ∀ (op : OutPoint) (c : Cell),
+      get (bl.foldl (append keep interval) []) (.outPoint op) = some (.cell c) ↔ replayLive bl op = some c := by
+    intro op c
+    rw [hrep]
+    cases replayLive bl op <;> simp
+  refine ⟨fun op => by rw [heq _ rfl]; exact hrep op,
+    fun sc bn i io t => by rw [heq _ rfl]; exact txLock_eq_replay keep interval bl c3 sc bn i io t,
+    fun sc bn i io t => by rw [heq _ rfl]; exact txType_eq_replay keep interval bl c3t sc bn i io t, ?_, ?_⟩
+  · intro sc bn txi io t
+    rw [heq _ rfl, lockInv_chain2 keep interval bl [] lockInv_empty c2 sc bn txi io t]
+    simp only [hcell]
+  · intro sc bn txi io t
+    rw [heq _ rfl, typeInv_chain2 keep interval bl [] typeInv_empty c2 sc bn txi io t]
+    simp only [hcell]
+
+/-- not vacuous: block 0; block 1 (spends 1.0) appended and rolled back; block 1' (spends 1.0 too)
+appended on the store that carries the residue of block 1 -/
+example :
+    let b0 : Block := ⟨0, 10, [⟨1, [⟨0, 4294967295⟩], [⟨1000, ⟨1, [1]⟩, none, []⟩]⟩]⟩
+    let b1 : Block := ⟨1, 11, [⟨2, [⟨0, 4294967295⟩], []⟩, ⟨3, [⟨1, 0⟩], [⟨100, ⟨1, [1]⟩, none, []⟩]⟩]⟩
+    let b1' : Block := ⟨1, 12, [⟨4, [⟨0, 4294967295⟩], []⟩, ⟨5, [⟨1, 0⟩], [⟨7, ⟨1, [2]⟩, none, []⟩]⟩]⟩
+    Followed 1 1 (append 1 1 (rollback (append 1 1 (append 1 1 [] b0) b1)) b1') ([] ++ [b0] ++ [b1']) := by
+  intro b0 b1 b1'
+  exact Followed.app b1' (Followed.reorg b1 (Followed.app b0 Followed.nil (by decide) (by decide))
+    (by decide) (by decide) (by decide)) (by decide) (by decide)
+
+
+/-! ## the checks the driver evaluates on every generated / real block imply the hypotheses -/
+
+/-- **the `wf` op is sound**: when the decidable checks `a` (`wfAppend2B`), `k` (`freshB2`: fresh
+rows, ConsumedOutPoint residue allowed), `d` (`hdrDisjointB`) and `r` (`retentionB`) that the driver
+evaluates on the store and the block about to be appended are all true — and the store satisfies the
+index invariants, which every chain store does (`lockInv_chain2`, `typeInv_chain2`, `nodup_chain`) —
+then the block satisfies the hypotheses of the append-step theorems and rolling it back right after
+the FULL `append` (automatic prune included) restores every answer row and the tip. -/
+theorem wf_checks_sound (s : Store) (b : Block) (keep interval : Nat)
+    (a : wfAppend2B s b = true) (k : freshB2 s b = true) (d : hdrDisjointB s b = true)
+    (r : retentionB s b keep = true) (li : LockInv s) (ti : TypeInv s) (hnd : NodupKeys s) :
+    WFAppend2 s b ∧ WFRollback2 s b ∧ HdrDisjoint s b ∧
+    (∀ key : Key, key.isAnswer = true → get (rollback (append keep interval s b)) key = get s key) ∧
+    tip (rollback (append keep interval s b)) = tip s := by
+  have wf := wfRollback2_of_B2 s b a k li ti
+  have hd := hdrDisjoint_of_B s b d
+  exact ⟨wf.toWFAppend2, wf, hd, fun key hk => rollback_append_full_answers wf hd keep interval key hk,
+    rollback_append_full_tip wf hd hnd keep interval (retention_of_B s b keep r)⟩
+
+/-- not vacuous, and on a store WITH residue: block 1 (spending 1.0) was appended and rolled back,
+leaving `ConsumedOutPoint(1, 1.0)`; another block 1 spending the same cell passes all checks (the
+strong `freshB` does not) -/
+example :
+    let b0 : Block := ⟨0, 10, [⟨1, [⟨0, 4294967295⟩], [⟨1000, ⟨1, [1]⟩, none, []⟩]⟩]⟩
+    let b1 : Block := ⟨1, 11, [⟨2, [⟨0, 4294967295⟩], []⟩, ⟨3, [⟨1, 0⟩], [⟨100, ⟨1, [1]⟩, none, []⟩]⟩]⟩
+    let b1' : Block := ⟨1, 12, [⟨4, [⟨0, 4294967295⟩], []⟩, ⟨5, [⟨1, 0⟩], [⟨7, ⟨1, [2]⟩, none, []⟩]⟩]⟩
+    let s := rollback (append 1 1 (append 1 1 [] b0) b1)
+    get s (.consumed 1 ⟨1, 0⟩) ≠ none ∧ freshB s b1' = false ∧
+      wfAppend2B s b1' = true ∧ freshB2 s b1' = true ∧ hdrDisjointB s b1' = true ∧ retentionB s b1' 1 = true := by
+  decide
+
+/-- **every chain on which the per-append checks succeeded satisfies the chain hypotheses** of all
+the answer theorems (`ChainOK2` for live cells / get_cells / order / paging / capacity, `ChainOK3` and
+`ChainOK3T` for the transaction history). The driver evaluates exactly these checks (bits `a`, `k` of
+the `wf` op) before every `append` of every synthetic and real-node chain. -/
+theorem chain_checks_sound (keep interval : Nat) (blocks : List Block)
+    (h : chainCheckedB keep interval [] blocks = true) :
+    ChainOK2 keep interval [] blocks ∧ ChainOK3 keep interval [] blocks ∧ ChainOK3T keep interval [] blocks :=
+  chainOK_of_checked keep interval blocks [] h
+
+example : chainCheckedB 1 1 [] exChainTx = true := by decide
+
 
 end CkbVerif.C18
